@@ -201,6 +201,7 @@ func TestVerifC30Concurrent(t *testing.T) {
 
 		recs := make([][]verifC30Rec, g)
 		start := make(chan struct{})
+		early := make(chan string, 1)
 		var ready atomic.Int32
 		var wg sync.WaitGroup
 		for gi := 0; gi < g; gi++ {
@@ -242,6 +243,15 @@ func TestVerifC30Concurrent(t *testing.T) {
 						if err != nil {
 							r.Err = err.Error()
 						}
+						if after >= post || (err == nil && f >= post) {
+							// already a violation by itself; report it even if other
+							// goroutines can no longer be joined (a synthesised future
+							// floor makes Next spin until the clock catches up)
+							select {
+							case early <- fmt.Sprintf("SetFloor(%d) by g%d#%d returned %v; floor afterwards %d; next natural id %d: the floor/fence is not below the natural generator", f, gi, i, err, after, post):
+							default:
+							}
+						}
 						out = append(out, r)
 					}
 				}
@@ -253,6 +263,12 @@ func TestVerifC30Concurrent(t *testing.T) {
 		go func() { wg.Wait(); close(done) }()
 		select {
 		case <-done:
+		case msg := <-early:
+			select {
+			case <-done: // everything came back: judge the full history below
+			case <-time.After(2 * time.Second):
+				verifC30Fail(rt, "TestVerifC30Concurrent", map[string]any{"node": nodeID, "g": g, "warm": warm, "scripts": scripts}, nil, "%s (history incomplete: goroutines still inside the allocator)", msg)
+			}
 		case <-time.After(60 * time.Second):
 			// Not a verdict: the allocator did not come back (a spinning
 			// Next would look like this). Goroutines are leaked on purpose.
